@@ -49,10 +49,12 @@ def eraseAll (s : St) : List (Nat × Nat) → St
   | [] => s
   | p :: r => eraseAll (eraseName s p.1) r
 
-def pushScope (s : St) : St := if s.global then s else { s with limits := s.limits ++ [s.elems.length] }
+/-- scope limits are tracked in every mode -/
+def pushScope (s : St) : St := { s with limits := s.limits ++ [s.elems.length] }
 
 def popScope (s : St) : St :=
-  if s.global then s else
+  if s.global then { s with limits := s.limits.dropLast }      -- `mergeScope`: names persist
+  else
   match s.limits.getLast? with
   | none => s                                  -- the C++ asserts `not limits.empty()`: undefined otherwise
   | some lim =>
